@@ -332,10 +332,18 @@ func varAssignments(p *gen.Program) []map[string]string {
 // forEachEnv enumerates every (vars, balances) input of p: all variable
 // assignments x all balance vectors over balanceMenu for the balance-relevant
 // accounts (world excluded). The second asset's balance is the menu rotated by 2
-// so the two assets never share a vector.
+// so the two assets never share a vector. A program with its own BalMenu uses that
+// menu instead of balanceMenu.
 func forEachEnv(p *gen.Program, f func(env *gen.Env)) {
 	exprs := collectAccountExprs(p)
 	meta := storeMeta()
+	menu := p.BalMenu // a stage may bring its own balance menu (large-amount stage)
+	if menu == nil {
+		menu = make([]*big.Int, len(balanceMenu))
+		for i, b := range balanceMenu {
+			menu[i] = big.NewInt(b)
+		}
+	}
 	for _, vars := range varAssignments(p) {
 		env := &gen.Env{Cat: p.Cat, Vars: vars, Meta: meta}
 		accSet := map[string]bool{}
@@ -354,8 +362,8 @@ func forEachEnv(p *gen.Program, f func(env *gen.Env)) {
 			bal := map[string]map[string]*big.Int{}
 			for i, a := range accs {
 				bal[a] = map[string]*big.Int{
-					assetMain:  big.NewInt(balanceMenu[idx[i]]),
-					assetOther: big.NewInt(balanceMenu[(idx[i]+2)%len(balanceMenu)]),
+					assetMain:  new(big.Int).Set(menu[idx[i]]),
+					assetOther: new(big.Int).Set(menu[(idx[i]+2)%len(menu)]),
 				}
 			}
 			e := *env
@@ -364,7 +372,7 @@ func forEachEnv(p *gen.Program, f func(env *gen.Env)) {
 			i := len(idx) - 1
 			for i >= 0 {
 				idx[i]++
-				if idx[i] < len(balanceMenu) {
+				if idx[i] < len(menu) {
 					break
 				}
 				idx[i] = 0
